@@ -121,7 +121,9 @@ def run_shard(rec, tier, seed, shard, nshards):
             ok = True
             for cyc in range(n_cycles):
                 try:
+                    h0 = screen_hash(prev)
                     prev.save_h5(fn)
+                    rec.check(screen_hash(prev) == h0, "C02/save/mutates-screen", "save_h5 changed the screen it saved", w)
                 except Exception as e:
                     rec.violation("C02/save/raises" if s.size else "C02/zero-row-screen/save_h5-raises", "save_h5 raised %r (cycle %d)" % (e, cyc + 1), w)
                     ok = False
